@@ -202,7 +202,11 @@ func Accel(t *rapid.T, cfg Cfg) *ast.Node {
 			return ast.Seq(ast.Group(ast.GAtomic, inner), s.node(t, 1))
 		}
 		return ast.Seq(ast.Quant(s.smallSet(t), rapid.IntRange(0, 1).Draw(t, "lmin"), -1, rapid.Bool().Draw(t, "llazy")), s.node(t, 2))
-	case 11: // long literal (Boyer-Moore)
+	case 11: // long literal (Boyer-Moore), sometimes around the 50-rune prefix limit
+		if s.cfg.Magic && rapid.IntRange(0, 3).Draw(t, "magiclit") == 0 {
+			n := rapid.SampledFrom([]int{49, 50, 51, 52, 53}).Draw(t, "magiclitlen")
+			return ast.Seq(s.accStr(t, n, n), tail())
+		}
 		return ast.Seq(s.accStr(t, 4, 10), tail())
 	case 12: // optional prefix then literal
 		return ast.Seq(ast.Quant(s.accStr(t, 1, 2), 0, 1, false), s.accStr(t, 2, 4), tail())
